@@ -236,6 +236,9 @@ func concurrentDrops(idx int64, r *rand.Rand) {
 }
 
 func TestCheck(t *testing.T) {
+	if limgen.LargeTables() {
+		rt.Count("shards_started_with_enlarged_lookup_tables", 1)
+	}
 	rt.Cases(20000, 4000000, func(idx int64) {
 		r := rt.CaseRand(6, idx)
 		rt.Case()
